@@ -331,4 +331,17 @@ def readMessage (P : Params) (s : Bytes) : Except WireErr (Bytes × Bytes) :=
     else if rest.length < len then .error .io
     else .ok (rest.take len, rest.drop len)
 
+/-- Reading messages off a stream until it ends or a frame is rejected (`fuel` bounds the number of frames:
+    every accepted frame consumes at least its 4-byte prefix). -/
+def readAllFuel (P : Params) : Nat → Bytes → List Bytes × WireErr
+  | 0, _ => ([], .io)
+  | fuel + 1, s =>
+    match readMessage P s with
+    | .error e => ([], e)
+    | .ok (m, rest) =>
+      let (ms, e) := readAllFuel P fuel rest
+      (m :: ms, e)
+
+def readAll (P : Params) (s : Bytes) : List Bytes × WireErr := readAllFuel P (s.length + 1) s
+
 end AxVerif.Wire
